@@ -20,11 +20,15 @@ def run(patch, check):
     if sh("git -C /repo apply --check %s" % patch).returncode != 0:
         return "patch-does-not-apply"
     sh("git -C /repo apply %s" % patch)
+    ev = "/verif/evidence/%s.json" % check
+    saved = open(ev).read() if os.path.exists(ev) else None  # evidence/ describes the unchanged tree
     try:
         p = sh("cd /verif && ./check %s" % check)
         out = p.stdout
     finally:
         sh("git -C /repo checkout -- . && git -C /repo clean -fdq")
+        if saved is not None:
+            open(ev, "w").write(saved)
         # drop replays created under the mutation
         for line in sh("git -C /verif status --porcelain replays").stdout.splitlines():
             if line.startswith("??"):
